@@ -458,17 +458,12 @@ def shapeKind (sh : Shape) : StoreKind :=
   if sh.params.isEmpty then .resetEachAccess else                      -- not a generic class
   .genericInstance sh.params (match sh.declared with | some acts => zipX sh.params acts | none => [])
 
-/-- the type arguments are exactly these TypeVars, in this order -/
-def listsParams : List A → List TVId → Bool
-  | [], [] => true
-  | .tv t :: as, p :: ps => t == p && listsParams as ps
-  | _, _ => false
-
-/-- regions of recorded findings, read off the class statement alone (not off the translated code) -/
+/-- regions of recorded findings, read off the declarations alone (not off the translated code).  The former regions
+    `genericParamsFromFirstBase` (first original base does not list the parameters) and `genericSubclassNotRecognised` (generic only
+    through a user base) are repaired: a failure there is a violation again. -/
 def shapeRegions (sh : Shape) : List String :=
   if sh.declared.isNone || sh.params.isEmpty then [] else
   if sh.inInit then ["initOfGenericInstanceUnchecked"]                 -- `__orig_class__` is set after `__init__` has returned
-  else if !sh.genericInBases then ["genericSubclassNotRecognised"]
-  else if !(match sh.origBases.head? with | some b => listsParams b.2 sh.params | none => false) then ["genericParamsFromFirstBase"] else []
+  else []
 
 end PedVerif.TypeVars.Spec
